@@ -350,6 +350,13 @@ func reqOracle(c *Ctx, op string, a map[string]string, flat []byte, got [][]byte
 		}
 		i++
 		if kind == "unary" || kind == "server" {
+			// the request of these kinds is this one message; another message after it is
+			// malformed framing, and the request is not to be served as if it were well-formed (F18)
+			// (a terminator-flagged envelope is how some peers end a request: the protocols
+			// differ there and the model decides; a second plain message is malformed for all)
+			if len(rest) >= 5 && rest[0] <= 1 && runs > 0 {
+				c.Fail("req-second-message-served", op, ans, "the request body carries another message after its one message, yet user code ran")
+			}
 			return
 		}
 	}
